@@ -25,6 +25,17 @@ def rowOK (eps : Rat) (row : List Rat) : Bool :=
   row.all (fun x => decide (0 ≤ x)) &&
   (decide (rabs (rsum row - 1) ≤ eps) || decide (rabs (rsum row) ≤ eps))
 
+/-- the strong form of the row clause: non-negative, summing to 1 when a label reaches the node and to 0 when
+    none does (within `eps`) -/
+def rowStrong (eps : Rat) (reaches : Bool) (row : List Rat) : Bool :=
+  row.all (fun x => decide (0 ≤ x)) &&
+  (if reaches then decide (rabs (rsum row - 1) ≤ eps) else decide (rabs (rsum row) ≤ eps))
+
+/-- a label reaches node `i` of `Propagation`'s probabilities: a neighbour with a non-negative label through an
+    entry of positive weight -/
+def propReaches (c : Csr Rat) (labels : List Int) (i : Nat) : Bool :=
+  (c.row i).any fun e => decide (0 ≤ labels.getD e.1 (-1)) && decide (0 < e.2)
+
 /-! ### the local evidence of label propagation -/
 
 /-- total vote of label `l` among the neighbours of `i` (edge weights; counts when the data are ones) -/
